@@ -58,6 +58,9 @@ Definition s_mul_pt (mk : Z) (x : meta) (pl : Z) (k : meta -> sres) : sres :=
   let rlb := lb x - pl in
   let roff := Z.max 0 (rlb + ld x - mk) in
   if rlb <? roff then SErr ECapacity else k (Meta (ld x) (rlb - roff)).
+(* products need compact ciphertext operands (checked after the parameters) *)
+Definition s_compact (c : bool) (k : sres) : sres := if c then k else SErr ENotCompact.
+Definition cpt (B : Z) (c : ct) : bool := compact B (cm c) (csize c).
 (* accumulate a product into d: both aligned to the smaller budget and precision *)
 Definition s_acc (d : ct) (t : meta) : sres :=
   SOk (Meta (Z.min (ld (cm d)) (ld t)) (Z.min (lb (cm d)) (lb t))) (csize d).
@@ -92,21 +95,27 @@ Definition spec_step (B : Z) (o : op) (d a b : ct) : sres :=
   | ONegInto | OConjInto => s_unary B d a ok
   | OMulPow2Into bits => s_unary B d a (fun m => if two64 <=? bits + offu B d a then SErr EOther else ok m)
   | ONegAssign | OConjAssign | OMulPow2Assign _ => ok dm
-  | OMulInto => s_mul_ct (maxk B d) (cm a) (cm b) ok
-  | OMulAssign => s_mul_ct (maxk B d) dm (cm a) ok
-  | OSquareInto => s_mul_ct (maxk B d) (cm a) (cm a) ok
-  | OSquareAssign => s_mul_ct (maxk B d) dm dm ok
-  | OMulPtZnxInto p => if negb (B =? pb2k p) then SErr EBase2k else s_mul_pt (maxk B d) (cm a) (ld (pm p)) ok
-  | OMulPtZnxAssign p => if negb (B =? pb2k p) then SErr EBase2k else s_mul_pt (maxk B d) dm (ld (pm p)) ok
-  | OMulPtRnxInto prec | OMulCstZnxInto prec _ => s_f64 (ld prec) (s_mul_pt (maxk B d) (cm a) (ld prec) ok)
-  | OMulPtRnxAssign prec | OMulCstZnxAssign prec _ => s_f64 (ld prec) (s_mul_pt (maxk B d) dm (ld prec) ok)
+  | OMulInto => s_mul_ct (maxk B d) (cm a) (cm b) (fun m => s_compact (cpt B a && cpt B b) (ok m))
+  | OMulAssign => s_mul_ct (maxk B d) dm (cm a) (fun m => s_compact (cpt B d && cpt B a) (ok m))
+  | OSquareInto => s_mul_ct (maxk B d) (cm a) (cm a) (fun m => s_compact (cpt B a) (ok m))
+  | OSquareAssign => s_mul_ct (maxk B d) dm dm (fun m => s_compact (cpt B d) (ok m))
+  | OMulPtZnxInto p =>
+      if negb (B =? pb2k p) then SErr EBase2k else s_mul_pt (maxk B d) (cm a) (ld (pm p)) (fun m => s_compact (cpt B a) (ok m))
+  | OMulPtZnxAssign p =>
+      if negb (B =? pb2k p) then SErr EBase2k else s_mul_pt (maxk B d) dm (ld (pm p)) (fun m => s_compact (cpt B d) (ok m))
+  | OMulPtRnxInto prec => s_f64 (ld prec) (s_mul_pt (maxk B d) (cm a) (ld prec) (fun m => s_compact (cpt B a) (ok m)))
+  | OMulPtRnxAssign prec => s_f64 (ld prec) (s_mul_pt (maxk B d) dm (ld prec) (fun m => s_compact (cpt B d) (ok m)))
+  | OMulCstZnxInto prec _ => s_f64 (ld prec) (s_mul_pt (maxk B d) (cm a) (ld prec) ok)
+  | OMulCstZnxAssign prec _ => s_f64 (ld prec) (s_mul_pt (maxk B d) dm (ld prec) ok)
   | OMulCstRnxInto prec none =>
       if none then s_mul_pt (maxk B d) (cm a) (ld prec) ok else s_f64 (ld prec) (s_mul_pt (maxk B d) (cm a) (ld prec) ok)
   | OMulCstRnxAssign prec none =>
       if none then s_mul_pt (maxk B d) dm (ld prec) ok else s_f64 (ld prec) (s_mul_pt (maxk B d) dm (ld prec) ok)
-  | OMulAccCt => s_mul_ct (maxk B d) (cm a) (cm b) (s_acc d)
-  | OMulAccPtZnx p => if negb (B =? pb2k p) then SErr EBase2k else s_mul_pt (maxk B d) (cm a) (ld (pm p)) (s_acc d)
-  | OMulAccPtRnx prec => s_f64 (ld prec) (s_mul_pt (maxk B d) (cm a) (ld prec) (s_acc d))
+  | OMulAccCt => s_mul_ct (maxk B d) (cm a) (cm b) (fun m => s_compact (cpt B a && cpt B b) (s_acc d m))
+  | OMulAccPtZnx p =>
+      if negb (B =? pb2k p) then SErr EBase2k
+      else s_mul_pt (maxk B d) (cm a) (ld (pm p)) (fun m => s_compact (cpt B a) (s_acc d m))
+  | OMulAccPtRnx prec => s_f64 (ld prec) (s_mul_pt (maxk B d) (cm a) (ld prec) (fun m => s_compact (cpt B a) (s_acc d m)))
   | OMulAccCstZnx prec none => s_f64 (ld prec) (if none then ok dm else s_mul_pt (maxk B d) (cm a) (ld prec) (s_acc d))
   | OMulAccCstRnx prec none => if none then ok dm else s_f64 (ld prec) (s_mul_pt (maxk B d) (cm a) (ld prec) (s_acc d))
   | ODivPow2Into bits =>
@@ -150,17 +159,8 @@ Definition admissible (B : Z) (o : op) (d a : ct) : Prop :=
   | _ => True
   end.
 
-(* the one remaining panic class: products assert (in poulpy-core) that their ciphertext operands are stored
-   compactly, ceil(effective_k / base2k) = limbs; the CKKS layer does not check it *)
-Definition k3_product_of_noncompact (B : Z) (o : op) (d a b : ct) : Prop :=
-  match o with
-  | OMulInto | OMulAccCt => ~ (compact_ct B a /\ compact_ct B b)
-  | OMulAssign => ~ (compact_ct B d /\ compact_ct B a)
-  | OSquareInto | OMulPtZnxInto _ | OMulPtRnxInto _ | OMulAccPtZnx _ | OMulAccPtRnx _ => ~ compact_ct B a
-  | OSquareAssign | OMulPtZnxAssign _ | OMulPtRnxAssign _ => ~ compact_ct B d
-  | _ => False
-  end.
-Definition known_panic (B : Z) (o : op) (d a b : ct) : Prop := k3_product_of_noncompact B o d a b.
+(* no panic class is left: every admissible call returns Ok or a typed error *)
+Definition known_panic (B : Z) (o : op) (d a b : ct) : Prop := False.
 
 (* ---------------- programs ---------------- *)
 Definition is_done (o : outcome) : Prop := match o with Done _ _ _ => True | _ => False end.
